@@ -12,8 +12,13 @@ if s.count(old) != 1:
 open(p, "w").write(s.replace(old, new))
 try:
     d = subprocess.run(["git", "-C", "/repo", "diff", "--", rel], capture_output=True, text=True).stdout
+    # a mutant that does not compile is no mutant (the check would answer exit 2, cannot decide)
+    env = dict(os.environ, GOFLAGS="-mod=mod", GOPROXY="off", GOSUMDB="off", GOTOOLCHAIN="local")
+    b = subprocess.run(["go", "build", "./" + os.path.dirname(rel)], cwd="/repo", capture_output=True, text=True, env=env)
 finally:
     open(p, "w").write(s)
+if b.returncode != 0:
+    sys.exit("mutant does not compile:\n" + b.stdout + b.stderr)
 os.makedirs("/verif/selftest/mutants/" + prop, exist_ok=True)
 with open("/verif/selftest/mutants/%s/%s.patch" % (prop, name), "w") as f:
     if expect:
